@@ -807,6 +807,29 @@ theorem tops_geometry_reads_first_layer (abs : α → α) (tol : α) (d : Dims) 
       zcornCellDTops d dz inp i j k c :=
   zcornCell_of_created abs tol n0 dz inp d hi hj k c
 
+/-- **Whichever layers `makeZcornDzTops` reads** (`Gen/GridTops.lean`, regenerated from the working
+tree: the first layer only — the tree as found — or every layer — the candidate patch of finding
+11): when the column has no given gap / overlap of the tolerance or more, the ZCORN corner built
+from the created vector is the first-layer stack of the input. -/
+theorem tops_geometry_gap_free (m : Gen.GridTops.TopsLayers) (abs : α → α) (tol : α) (d : Dims) (n0 : Nat)
+    (dz inp : Nat → α) {i j : Nat} (hi : i < d.nx) (hj : j < d.ny)
+    (hstack : ∀ k, i + j * d.nx + (k + 1) * (d.nx * d.ny) < n0 →
+      abs (zTopsAt d dz inp i j k + dz (i + j * d.nx + k * d.nx * d.ny) -
+        inp (i + j * d.nx + (k + 1) * (d.nx * d.ny))) < tol) (k c : Nat) :
+    zcornCellOf m d dz (topsEntry abs tol (d.nx * d.ny) n0 dz inp) i j k c =
+      zcornCellDTops d dz inp i j k c := by
+  cases m
+  · exact zcornCell_of_created abs tol n0 dz inp d hi hj k c
+  · exact zcornCellFull_eq_stack abs tol n0 dz inp d hi hj hstack k c
+
+/-- With the every-layer reading the top of every cell *is* its TOPS-vector entry and the bottom
+is that entry plus DZ — gaps kept by `createTOPSVector` reach the geometry. -/
+theorem tops_geometry_every_layer (d : Dims) (dz T : Nat → α) (i j k : Nat) :
+    zcornCellOf .everyLayer d dz T i j k 0 = T (i + j * d.nx + k * d.nx * d.ny) ∧
+    zcornCellOf .everyLayer d dz T i j k 4 =
+      T (i + j * d.nx + k * d.nx * d.ny) + dz (i + j * d.nx + k * d.nx * d.ny) :=
+  ⟨rfl, rfl⟩
+
 end TopsThms
 
 /-- Non-vacuity and witness of the recorded observation (ℤ, tolerance 1): one column of three
@@ -817,7 +840,8 @@ example :
     let inp : Nat → Int := fun t => [10, 12, 20].getD t 0
     let T := GridTops.topsEntry (fun x : Int => if x < 0 then -x else x) 1 1 3 (fun _ => 2) inp
     (T 0, T 1, T 2) = (10, 12, 20) ∧
-    zcornCellDTops ⟨1, 1, 3⟩ (fun _ => 2) T 0 0 2 0 = 14 := by
+    zcornCellDTops ⟨1, 1, 3⟩ (fun _ => 2) T 0 0 2 0 = 14 ∧
+    GridTops.zcornCellOf .everyLayer ⟨1, 1, 3⟩ (fun _ => 2) T 0 0 2 0 = 20 := by
   decide
 
 /-- Only two of three layers given, the second 3 below the stack: kept; the third is stacked on it. -/
